@@ -8,14 +8,14 @@ for f in sorted(glob.glob('/tmp/seed/results*.jsonl')):
     for l in open(f):
         r = json.loads(l)
         if 'exit' in r:
-            res[os.path.basename(r['seed'])] = dict(r, results_file=os.path.basename(f))
+            res[r['seed']] = dict(r, results_file=os.path.basename(f))
 os.makedirs('/verif/seeded', exist_ok=True)
 rows = []
 for sd in sorted(glob.glob('/tmp/seed/out_*/C*_*')):
-    name = os.path.basename(sd)
-    if not os.path.exists(sd + '/patch.diff'):
+    if not os.path.exists(sd + '/patch.diff') or not os.path.exists(sd + '/meta.json'):
         continue
     wave = 2 if int(sd.split('out_')[1].split('/')[0]) > 10 else 1
+    name = ('w2_' if wave == 2 else '') + os.path.basename(sd)
     dst = '/verif/seeded/' + name
     os.makedirs(dst, exist_ok=True)
     for fn in ['patch.diff', 'demo.rs']:
@@ -23,10 +23,10 @@ for sd in sorted(glob.glob('/tmp/seed/out_*/C*_*')):
             shutil.copy(sd + '/' + fn, dst + '/' + fn)
     meta = json.load(open(sd + '/meta.json'))
     conf = json.load(open(sd + '/confirm.json')) if os.path.exists(sd + '/confirm.json') else None
-    if name == 'C17_b' and wave == 1:
+    if name in ('C17_b', 'w2_C17_a'):
         conf = {"applies": True, "suite_passes_with_change": True, "demo_fails_with_change": True, "demo_passes_without_change": True,
                 "note": "confirmed with `cargo test --offline --release --test demo` (the divergence only shows in the release profile; in debug the demo passes with and without the change)"}
-    r = res.get(name)
+    r = res.get(sd)
     det = None
     if r:
         det = {"check": "./check %s --tier quick (tree = HEAD + patch)" % r['property'], "exit": r['exit'],
